@@ -4,6 +4,9 @@
 import Synphot.Lemmas.Merge
 import Synphot.Lemmas.GenWave
 import Synphot.Core.Tree
+import Synphot.Lemmas.C13x
+import Synphot.Lemmas.TranscReal
+import Mathlib.Data.Rat.Floor
 
 set_option linter.unusedSectionVars false
 set_option linter.unusedVariables false
@@ -189,5 +192,512 @@ theorem gaussianGrid_affine [FloorRing K] (m s : K) (hs : 0 < s) :
 /-- non-vacuity: three near-coincident points, the two smaller ones are dropped -/
 example : filterClose (1 / 10 : ℚ) [1, 2, 3, 61 / 20, 31 / 10, 5] = [1, 2, 31 / 10, 5] := by
   decide +kernel
+
+open Synphot.C13x
+
+/-! ## second round: the remaining claims of the property text -/
+
+/-! ### merging, continued -/
+
+/-- `merge(m, m) = m` for every set that is already valid for the merge: strictly increasing with all
+neighbours farther apart than the threshold (not only for results of a merge, `merge_idem`) -/
+theorem merge_self (thr : K) (m : List K) (hs : StrictAsc m) (hg : Gaps thr m) :
+    mergeWavelengths thr (some m) (some m) = some m := by
+  simp only [mergeWavelengths, Option.some.injEq]
+  rw [union1d_self m hs, filterClose_of_gaps thr m hg]
+
+/-- argument order and merging twice together: merging the two orders of the same pair gives the pair's
+merge again -/
+theorem merge_order_and_twice (thr : K) (a b m : List K)
+    (h : mergeWavelengths thr (some a) (some b) = some m) :
+    mergeWavelengths thr (mergeWavelengths thr (some a) (some b))
+      (mergeWavelengths thr (some b) (some a)) = some m := by
+  rw [merge_comm thr (some b) (some a), h]
+  exact merge_idem thr a b m h
+
+/-- without near-coincidences the merge is the exact sorted union: every input point is kept -/
+theorem merge_exact_of_separated (thr : K) (a b m : List K)
+    (h : mergeWavelengths thr (some a) (some b) = some m) (hg : Gaps thr (union1d a b)) (x : K) :
+    x ∈ m ↔ (x ∈ a ∨ x ∈ b) := by
+  simp only [mergeWavelengths, Option.some.injEq] at h; subst h
+  rw [filterClose_of_gaps thr _ hg, mem_union1d]
+
+/-- the largest input point is always kept: the merged set ends where the union ends -/
+theorem merge_keeps_largest (thr : K) (a b m : List K)
+    (h : mergeWavelengths thr (some a) (some b) = some m) :
+    m.getLast? = (union1d a b).getLast? := by
+  simp only [mergeWavelengths, Option.some.injEq] at h; subst h
+  by_cases hu : union1d a b = []
+  · rw [hu]; rfl
+  · rw [List.getLast?_eq_some_getLast (filterClose_ne_nil thr _ hu),
+      List.getLast?_eq_some_getLast hu, filterClose_getLast thr _ hu]
+
+/-- **coverage, exact form.**  Every input point has a point of the merged set at or above it, reached
+through `k` consecutive gaps of the union that are all `≤ thr`; `k = 0` when the point itself is kept.
+(The property text's "keeps every input point except the smaller of two closer than the threshold"
+is this with `k ≤ 1`; runs of more than two near-coincident points collapse onto their largest
+member, so `k·thr` is the sharp distance — see the example after `merge_covers_within_thr`.) -/
+theorem merge_covers (thr : K) (a b m : List K)
+    (h : mergeWavelengths thr (some a) (some b) = some m) (x : K) (hx : x ∈ a ∨ x ∈ b) :
+    ∃ y ∈ m, ∃ k : Nat, x ≤ y ∧ y - x ≤ thr * (k : K) ∧ k < a.length + b.length := by
+  simp only [mergeWavelengths, Option.some.injEq] at h; subst h
+  obtain ⟨y, hy, k, h1, h2, h3⟩ := filterClose_covers thr (union1d a b) (union1d_strictAsc a b) x
+    ((mem_union1d a b x).mpr hx)
+  exact ⟨y, hy, k, h1, h2, lt_of_lt_of_le h3 (union1d_length_le a b)⟩
+
+/-- **coverage within one threshold**: when no input point has close neighbours on *both* sides, every
+input point is kept or has a *kept* point within the threshold above it -/
+theorem merge_covers_within_thr (thr : K) (h0 : 0 ≤ thr) (a b m : List K)
+    (h : mergeWavelengths thr (some a) (some b) = some m)
+    (hiso : ∀ p, (p ∈ a ∨ p ∈ b) → ∀ q, (q ∈ a ∨ q ∈ b) → ∀ r, (r ∈ a ∨ r ∈ b) →
+      p < q → q < r → ¬ (q - p ≤ thr ∧ r - q ≤ thr))
+    (x : K) (hx : x ∈ a ∨ x ∈ b) : ∃ y ∈ m, x ≤ y ∧ y - x ≤ thr := by
+  simp only [mergeWavelengths, Option.some.injEq] at h; subst h
+  refine filterClose_covers_isolated thr h0 _ (union1d_strictAsc a b) ?_ x
+    ((mem_union1d a b x).mpr hx)
+  intro p hp q hq r hr
+  exact hiso p ((mem_union1d a b p).mp hp) q ((mem_union1d a b q).mp hq) r ((mem_union1d a b r).mp hr)
+
+/-- the hypothesis of `merge_covers_within_thr` holds for any two sets whose own neighbours are more
+than twice the threshold apart (every physical sampling set: `2e-12 Å`) -/
+theorem merge_covers_of_wide_gaps (thr : K) (h0 : 0 ≤ thr) (a b m : List K)
+    (h : mergeWavelengths thr (some a) (some b) = some m)
+    (ha : StrictAsc a) (hb : StrictAsc b) (hga : Gaps (2 * thr) a) (hgb : Gaps (2 * thr) b)
+    (x : K) (hx : x ∈ a ∨ x ∈ b) : ∃ y ∈ m, x ≤ y ∧ y - x ≤ thr := by
+  refine merge_covers_within_thr thr h0 a b m h ?_ x hx
+  intro p hp q hq r hr
+  exact isolated_of_gaps thr a b ha hb hga hgb p ((mem_union1d a b p).mpr hp) q
+    ((mem_union1d a b q).mpr hq) r ((mem_union1d a b r).mpr hr)
+
+/-! ### composites: arbitrary expression trees -/
+
+/-- a composite's sampling set consists of sampling points of its components only (each multiplied by
+the `1+z` of the redshifts enclosing it); extinction curves contribute none -/
+theorem composite_no_invented_points (thr : K) (m : Tree K) (w : List K)
+    (h : m.sampleset thr = some w) (x : K) (hx : x ∈ w) : x ∈ leafPoints m :=
+  sampleset_subset_leafPoints thr m w h x hx
+
+/-- **a composite samples every component**, exact form: in a tree whose merges meet no two points
+within the threshold of each other, every sampling point of every component that has a sampling set
+is a point of the composite's set — for every expression tree, by induction on the tree -/
+theorem composite_contains_components (thr : K) (m : Tree K) (hsep : Separated thr m) (x : K)
+    (hx : x ∈ leafPoints m) : ∃ w, m.sampleset thr = some w ∧ x ∈ w :=
+  separated_contains thr m hsep x hx
+
+-- NOT PROVABLE ON CURRENT CODE (false for runs of near-coincident points and for nested merges):
+--   theorem composite_covers_components (thr) (h0 : 0 ≤ thr) (m) (hz : ZPos m) (x) (hx : x ∈ leafPoints m) :
+--       ∃ w, m.sampleset thr = some w ∧ ∃ y ∈ w, x ≤ y ∧ y - x ≤ thr
+--   A point dropped at one merge in favour of a neighbour `≤ thr` above it can lose that neighbour at
+--   the next merge (or, within one merge, to the next member of a run of close points), and an enclosing
+--   redshift stretches the distance by `1+z`.  What holds for every tree is the bound `slack thr m`
+--   (one threshold per point handled by each merge on the way to the root, times the enclosing `1+z`):
+/-- **a composite samples every component**, general form: for every expression tree (redshifts with
+`1+z > 0`) every sampling point of every component has a point of the composite's set at or above it,
+at most `slack thr m` away; the set is defined as soon as one component has one -/
+theorem composite_covers_components_partial (thr : K) (h0 : 0 ≤ thr) (m : Tree K) (hz : ZPos m)
+    (x : K) (hx : x ∈ leafPoints m) :
+    ∃ w, m.sampleset thr = some w ∧ ∃ y ∈ w, x ≤ y ∧ y - x ≤ slack thr m :=
+  covers thr h0 m hz x hx
+
+/-- extinction curves are excepted, as the code does: neither side of a composite sees their points -/
+theorem composite_ignores_extinction (thr : K) (op : BinOp) (m : Tree K) (t : Table K) :
+    (Tree.bin op m (.leaf (.extinction t))).sampleset thr = m.sampleset thr ∧
+    (Tree.bin op (.leaf (.extinction t)) m).sampleset thr = m.sampleset thr ∧
+    leafPoints (Tree.leaf (.extinction t) : Tree K) = [] := by
+  refine ⟨?_, ?_, rfl⟩
+  · simp only [Tree.sampleset, Leaf.sampleset]; exact (merge_none thr _).1
+  · simp only [Tree.sampleset, Leaf.sampleset]; exact (merge_none thr _).2
+
+/-- a composite of two components with sampling sets is always sorted with neighbours farther apart
+than the threshold: `waveset` returns it, or refuses it for a non-positive wavelength — never for
+order or duplicates -/
+theorem waveset_composite (thr : K) (op : BinOp) (l r : Tree K) (wl wr : List K)
+    (hl : l.sampleset thr = some wl) (hr : r.sampleset thr = some wr) :
+    (Tree.bin op l r).waveset thr = .error .zeroWavelength ∨
+    ∃ w, (Tree.bin op l r).waveset thr = .ok (some w) ∧ StrictAsc w ∧ Gaps thr w ∧ ∀ x ∈ w, 0 < x := by
+  have hs : (Tree.bin op l r).sampleset thr = some (filterClose thr (union1d wl wr)) := by
+    simp [Tree.sampleset, hl, hr, mergeWavelengths]
+  have hasc := filterClose_strictAsc thr _ (union1d_strictAsc wl wr)
+  have hgap := filterClose_gaps thr _ (union1d_strictAsc wl wr)
+  by_cases hp : ∀ x ∈ filterClose thr (union1d wl wr), 0 < x
+  · right
+    refine ⟨_, ?_, hasc, hgap, hp⟩
+    unfold Tree.waveset
+    rw [hs]
+    have := (validate_ok_iff _).mpr ⟨hp, Or.inl hasc⟩
+    simp [this, bind, Except.bind, pure, Except.pure]
+  · left
+    push Not at hp
+    obtain ⟨x, hx, hx0⟩ := hp
+    exact waveset_refuses_nonpositive thr _ _ hs x hx hx0
+
+/-- scalar multiplication does not change `waveset` (validation included) -/
+theorem waveset_scale (thr k : K) (m : Tree K) : (Tree.scale m k).waveset thr = m.waveset thr := rfl
+
+/-- under a redshift with `1+z > 0` `waveset` — errors included — is the rest-frame `waveset` with every
+wavelength multiplied by `1+z` -/
+theorem waveset_redshift (thr z : K) (hz : 0 < 1 + z) (m : Tree K) :
+    (Tree.redshift z m).waveset thr =
+      (m.waveset thr).map (fun o => o.map (fun w => w.map (· * (1 + z)))) := by
+  unfold Tree.waveset
+  simp only [Tree.sampleset]
+  cases hs : m.sampleset thr with
+  | none => rfl
+  | some w =>
+    simp only [Option.map_some, validate_map_mul (1 + z) hz w]
+    cases validateWavelengths w <;> rfl
+
+/-- multiplying or dividing a spectrum object of any class by a number leaves its sampling set alone -/
+theorem waveset_scalar_op (thr : K) (op : BinOp) (self r : Spec K) (v : K) (a : Tree K)
+    (h : specOp op self (.real v) = .ok r) (ha : self.model = .ok a) :
+    ∃ b, r.model = .ok b ∧ b.waveset thr = a.waveset thr := by
+  obtain ⟨k, t, _, ht, rfl⟩ := specOp_ok h
+  refine ⟨t, ofTree_model k t, ?_⟩
+  unfold Tree.waveset
+  rw [resultTree_scalar_sampleset thr op self v t a ht ha]
+
+/-! ### `waveset`: refusal instead of an invalid set -/
+
+/-- `waveset` returns a set exactly when the sampling set is positive and strictly monotone -/
+theorem waveset_ok_iff (thr : K) (m : Tree K) (w : List K) :
+    m.waveset thr = .ok (some w) ↔
+      (m.sampleset thr = some w ∧ (∀ x ∈ w, 0 < x) ∧ (StrictAsc w ∨ StrictDesc w)) := by
+  unfold Tree.waveset
+  cases hs : m.sampleset thr with
+  | none => simp
+  | some w' =>
+    dsimp only
+    cases hv : validateWavelengths w' with
+    | error e =>
+      simp only [bind, Except.bind, Option.some.injEq]
+      constructor
+      · intro h; cases h
+      · rintro ⟨rfl, hp⟩
+        rw [(validate_ok_iff w').mpr hp] at hv; cases hv
+    | ok u =>
+      cases u
+      simp only [bind, Except.bind, pure, Except.pure, Except.ok.injEq, Option.some.injEq]
+      constructor
+      · rintro rfl; exact ⟨rfl, (validate_ok_iff w').mp hv⟩
+      · rintro ⟨rfl, _⟩; rfl
+
+/-- the outcomes of `waveset`: undefined exactly when no component has a sampling set, otherwise the
+set itself or one of the three refusals — nothing else, in particular never a different set -/
+theorem waveset_outcomes (thr : K) (m : Tree K) :
+    (m.waveset thr = .ok none ∧ m.sampleset thr = none) ∨
+    (∃ w, m.sampleset thr = some w ∧
+      (m.waveset thr = .ok (some w) ∨ m.waveset thr = .error .zeroWavelength ∨
+       m.waveset thr = .error .unsortedWavelength ∨ m.waveset thr = .error .duplicateWavelength)) := by
+  unfold Tree.waveset
+  cases hs : m.sampleset thr with
+  | none => left; exact ⟨rfl, rfl⟩
+  | some w =>
+    right
+    refine ⟨w, rfl, ?_⟩
+    simp only [validateWavelengths]
+    split_ifs <;> simp [bind, Except.bind, pure, Except.pure]
+
+/-! ### generated grids, continued -/
+
+/-- `generate_wavelengths(min, max, num, log=False)`: exactly `num` points `min + i·(max−min)/num`, all
+in `[min, max)` — strictly below `max` —, uniformly spaced and strictly increasing -/
+theorem gen_linear_num [FloorRing K] (T : Transc K) (lo hi : K) (num : Nat) (h : lo < hi) :
+    let g := generateWavelengths T lo hi num none false
+    g.length = num ∧ (∀ x ∈ g, lo ≤ x ∧ x < hi) ∧
+    (∀ i, i < num → g[i]? = some (lo + (i : K) * ((hi - lo) / num))) ∧
+    UniformStep ((hi - lo) / num) g ∧ StrictAsc g := by
+  simp only [generateWavelengths, Bool.false_eq_true, if_false]
+  refine ⟨(linspace_spec lo hi num h).1, (linspace_spec lo hi num h).2.1, ?_, ?_, ?_⟩
+  · intro i hi'; exact affineGrid_getElem? _ _ _ _ hi'
+  · exact affineGrid_uniform _ _ _
+  · by_cases hn : num = 0
+    · subst hn; simp [linspaceOpen, affineGrid_zero, StrictAsc]
+    · exact affineGrid_strictAsc _ _ (div_pos (sub_pos.mpr h)
+        (by exact_mod_cast Nat.pos_of_ne_zero hn)) _
+
+/-- `generate_wavelengths(min, max, delta=d, log=False)`: the points `min + i·d` that are below `max` —
+all of them (`count` is the least `n` with `min + n·d ≥ max`), so the step is `d` and no point reaches
+`max` -/
+theorem gen_linear_delta [FloorRing K] (T : Transc K) (lo hi d : K) (num : Nat) (hd : 0 < d) :
+    let g := generateWavelengths T lo hi num (some d) false
+    (∀ x ∈ g, lo ≤ x ∧ x < hi) ∧
+    (∀ i, i < g.length → g[i]? = some (lo + (i : K) * d)) ∧
+    UniformStep d g ∧ StrictAsc g ∧
+    hi ≤ lo + (g.length : K) * d ∧ (∀ n : Nat, hi ≤ lo + (n : K) * d → g.length ≤ n) := by
+  simp only [generateWavelengths, Bool.false_eq_true, if_false]
+  refine ⟨fun x hx => (arange_spec lo hi d hd x hx).2, ?_, affineGrid_uniform _ _ _,
+    affineGrid_strictAsc _ _ hd _, ?_, ?_⟩
+  · intro i hi'
+    unfold arange at hi' ⊢
+    rw [affineGrid_length] at hi'
+    exact affineGrid_getElem? _ _ _ _ hi'
+  · unfold arange; rw [affineGrid_length]
+    have := Nat.le_ceil ((hi - lo) / d)
+    rw [div_le_iff₀ hd] at this
+    linarith
+  · intro n hn
+    unfold arange; rw [affineGrid_length]
+    apply Nat.ceil_le.mpr
+    rw [div_le_iff₀ hd]; linarith
+
+/-- exact multiple: when `max − min = k·d` the grid has exactly `k` points and its last point is
+`max − d` (the end point itself is excluded) -/
+theorem arange_exact_multiple [FloorRing K] (a b d : K) (k : Nat) (hd : 0 < d)
+    (h : b - a = ((k + 1 : Nat) : K) * d) :
+    (arange a b d).length = k + 1 ∧ (arange a b d).getLast? = some (b - d) := by
+  have hl := arange_length_of_multiple a b d (k + 1) hd h
+  refine ⟨hl, ?_⟩
+  unfold arange at hl ⊢
+  rw [affineGrid_length] at hl
+  rw [hl, affineGrid_getLast?]
+  congr 1
+  push_cast at h
+  linarith
+
+/-- a linear grid starting at a positive wavelength is a valid wavelength set -/
+theorem gen_linear_valid [FloorRing K] (T : Transc K) (lo hi : K) (num : Nat) (delta : Option K)
+    (h0 : 0 < lo) (h : lo < hi) (hd : ∀ d, delta = some d → 0 < d) :
+    validateWavelengths (generateWavelengths T lo hi num delta false) = .ok () := by
+  rw [validate_ok_iff]
+  cases delta with
+  | none =>
+    obtain ⟨_, hr, _, _, hs⟩ := gen_linear_num T lo hi num h
+    exact ⟨fun x hx => lt_of_lt_of_le h0 (hr x hx).1, Or.inl hs⟩
+  | some d =>
+    obtain ⟨hr, _, _, hs, _⟩ := gen_linear_delta T lo hi d num (hd d rfl)
+    exact ⟨fun x hx => lt_of_lt_of_le h0 (hr x hx).1, Or.inl hs⟩
+
+/-- monotone `10^x` puts the image of `[log₁₀ min, log₁₀ max)` into `[min, max)` -/
+theorem pow10_range (T : Transc K) (hT : T.Lawful) (hmono : StrictMono T.pow10) (minw maxw u : K)
+    (h0 : 0 < minw) (h1 : 0 < maxw) (hu : T.log10 minw ≤ u ∧ u < T.log10 maxw) :
+    minw ≤ T.pow10 u ∧ T.pow10 u < maxw := by
+  constructor
+  · rw [← hT.pow10_log10 minw h0]; exact hmono.monotone hu.1
+  · rw [← hT.pow10_log10 maxw h1]; exact hmono hu.2
+
+/-- `generate_wavelengths(min, max, num, log=True)`: `num` points, all in `[min, max)`, strictly
+increasing, neighbours in the constant ratio `10^((log max − log min)/num)` (uniform in log space) -/
+theorem gen_log_num [FloorRing K] (T : Transc K) (hT : T.Lawful) (hmono : StrictMono T.pow10)
+    (minw maxw : K) (num : Nat) (h0 : 0 < minw) (h : minw < maxw) :
+    let g := generateWavelengths T minw maxw num none true
+    g.length = num ∧ (∀ x ∈ g, minw ≤ x ∧ x < maxw) ∧
+    UniformRatio (T.pow10 ((T.log10 maxw - T.log10 minw) / num)) g ∧ StrictAsc g := by
+  have h1 : 0 < maxw := lt_trans h0 h
+  have hlog : T.log10 minw < T.log10 maxw := by
+    by_contra hc
+    have := hmono.monotone (not_lt.mp hc)
+    rw [hT.pow10_log10 _ h0, hT.pow10_log10 _ h1] at this
+    exact absurd h (not_lt.mpr this)
+  simp only [generateWavelengths, if_true]
+  refine ⟨by rw [List.length_map]; exact (linspace_spec _ _ num hlog).1, ?_, ?_, ?_⟩
+  · intro x hx
+    rw [List.mem_map] at hx
+    obtain ⟨u, hu, rfl⟩ := hx
+    exact pow10_range T hT hmono minw maxw u h0 h1 ((linspace_spec _ _ num hlog).2.1 u hu)
+  · exact uniformRatio_map_pow10 T hT _ _ (affineGrid_uniform _ _ _)
+  · by_cases hn : num = 0
+    · subst hn; simp [linspaceOpen, affineGrid_zero, StrictAsc]
+    · have := affineGrid_strictAsc (T.log10 minw) ((T.log10 maxw - T.log10 minw) / num)
+        (div_pos (sub_pos.mpr hlog) (by exact_mod_cast Nat.pos_of_ne_zero hn)) num
+      rw [strictAsc_iff_chain] at this ⊢
+      exact List.isChain_map_of_isChain T.pow10 (fun a b hab => hmono hab) this
+
+/-- `generate_wavelengths(min, max, delta=d, log=True)`: the points `10^(log min + i·d)` below `max`,
+all in `[min, max)`, strictly increasing, neighbours in the constant ratio `10^d` -/
+theorem gen_log_delta [FloorRing K] (T : Transc K) (hT : T.Lawful) (hmono : StrictMono T.pow10)
+    (minw maxw d : K) (num : Nat) (h0 : 0 < minw) (h1 : 0 < maxw) (hd : 0 < d) :
+    let g := generateWavelengths T minw maxw num (some d) true
+    (∀ x ∈ g, minw ≤ x ∧ x < maxw) ∧
+    (∀ i, i < g.length → g[i]? = some (T.pow10 (T.log10 minw + (i : K) * d))) ∧
+    UniformRatio (T.pow10 d) g ∧ StrictAsc g := by
+  simp only [generateWavelengths, if_true]
+  refine ⟨?_, ?_, ?_, ?_⟩
+  · intro x hx
+    rw [List.mem_map] at hx
+    obtain ⟨u, hu, rfl⟩ := hx
+    exact pow10_range T hT hmono minw maxw u h0 h1 (arange_spec _ _ d hd u hu).2
+  · intro i hi'
+    rw [List.length_map] at hi'
+    unfold arange at hi' ⊢
+    rw [affineGrid_length] at hi'
+    rw [List.getElem?_map, affineGrid_getElem? _ _ _ _ hi']; rfl
+  · exact uniformRatio_map_pow10 T hT _ _ (affineGrid_uniform _ _ _)
+  · have := affineGrid_strictAsc (T.log10 minw) d hd (Nat.ceil ((T.log10 maxw - T.log10 minw) / d))
+    unfold arange
+    rw [strictAsc_iff_chain] at this ⊢
+    exact List.isChain_map_of_isChain T.pow10 (fun a b hab => hmono hab) this
+
+/-- the hypotheses of the two log-grid theorems are met by the real functions -/
+theorem real_pow10_strictMono : StrictMono Transc.real.pow10 := by
+  intro x y hxy
+  simp only [Transc.real_pow10]
+  exact Real.rpow_lt_rpow_of_exponent_lt (by norm_num) hxy
+
+/-! ### non-vacuity of the second round (concrete rational data) -/
+
+/-- the union used by the examples below, computed by hand -/
+private theorem ex_union : union1d ([4, 5, 6] : List ℚ) [9 / 2, 5, 11 / 2] = [4, 9 / 2, 5, 11 / 2, 6] := by
+  apply union1d_eq_of
+  · simp only [StrictAsc]; norm_num
+  · intro x; simp only [List.mem_cons, List.not_mem_nil, or_false]; tauto
+
+private def exTree : Tree ℚ :=
+  .bin .add (.leaf (.box 1 5 2 (some [4, 5, 6]))) (.scale (.leaf (.gaussian 1 5 1 (some [9 / 2, 5, 11 / 2]))) 3)
+
+private theorem ex_merge :
+    mergeWavelengths (1 / 10 : ℚ) (some [4, 5, 6]) (some [9 / 2, 5, 11 / 2]) = some [4, 9 / 2, 5, 11 / 2, 6] := by
+  simp only [mergeWavelengths, ex_union]
+  decide +kernel
+
+private theorem exTree_sampleset : exTree.sampleset (1 / 10) = some [4, 9 / 2, 5, 11 / 2, 6] := by
+  simp only [exTree, Tree.sampleset, Leaf.sampleset]
+  exact ex_merge
+
+private theorem ex_gaps : Gaps (1 / 10 : ℚ) (union1d [4, 5, 6] [9 / 2, 5, 11 / 2]) := by
+  rw [ex_union]; simp only [Gaps]; norm_num
+
+private theorem exTree_separated : Separated (1 / 10) exTree := by
+  refine ⟨trivial, trivial, ?_⟩
+  intro wl wr hl hr
+  simp only [Tree.sampleset, Leaf.sampleset, Option.some.injEq] at hl hr
+  subst hl; subst hr
+  exact ex_gaps
+
+private theorem exTree_leafPoints : leafPoints exTree = [4, 5, 6, 9 / 2, 5, 11 / 2] := rfl
+
+private def exT : Transc ℚ := ⟨id, id, id, id, id, id, id, fun x _ => x, 0, id, id⟩
+
+private def exTable : Table ℚ := { pts := [1, 2], vals := [0, 0], keepNeg := false, fillNaN := false }
+
+example : mergeWavelengths (1 / 10 : ℚ) (some [1, 2]) (some [1, 2]) = some [1, 2] :=
+  merge_self _ _ (by simp only [StrictAsc]; norm_num) (by simp only [Gaps]; norm_num)
+
+example : mergeWavelengths (1 / 10 : ℚ)
+    (mergeWavelengths (1 / 10) (some [4, 5, 6]) (some [9 / 2, 5, 11 / 2]))
+    (mergeWavelengths (1 / 10) (some [9 / 2, 5, 11 / 2]) (some [4, 5, 6])) = some [4, 9 / 2, 5, 11 / 2, 6] :=
+  merge_order_and_twice _ _ _ _ ex_merge
+
+example : (11 / 2 : ℚ) ∈ [4, 9 / 2, 5, 11 / 2, 6] ↔ ((11 / 2 : ℚ) ∈ [4, 5, 6] ∨ (11 / 2 : ℚ) ∈ [9 / 2, 5, 11 / 2]) :=
+  merge_exact_of_separated _ _ _ _ ex_merge ex_gaps _
+
+example : ([4, 9 / 2, 5, 11 / 2, 6] : List ℚ).getLast? = (union1d [4, 5, 6] [9 / 2, 5, 11 / 2]).getLast? :=
+  merge_keeps_largest _ _ _ _ ex_merge
+
+example : ∃ y ∈ ([4, 9 / 2, 5, 11 / 2, 6] : List ℚ), ∃ k : Nat, 4 ≤ y ∧ y - 4 ≤ 1 / 10 * (k : ℚ) ∧ k < 3 + 3 :=
+  merge_covers _ _ _ _ ex_merge 4 (Or.inl (by simp))
+
+/-- a run of four near-coincident points (each input's own neighbours are farther apart than the
+threshold 1): only the largest survives, `0` ends up `9/5` — three gaps — below the nearest kept point.
+This is why `merge_covers` counts gaps and why "within the threshold" needs `merge_covers_within_thr`'s
+hypothesis. -/
+example : mergeWavelengths (1 : ℚ) (some [0, 6 / 5]) (some [3 / 5, 9 / 5]) = some [9 / 5] := by
+  have hu : union1d ([0, 6 / 5] : List ℚ) [3 / 5, 9 / 5] = [0, 3 / 5, 6 / 5, 9 / 5] := by
+    apply union1d_eq_of
+    · simp only [StrictAsc]; norm_num
+    · intro x; simp only [List.mem_cons, List.not_mem_nil, or_false]; tauto
+  simp only [mergeWavelengths, hu]
+  decide +kernel
+
+private theorem ex_merge2 : mergeWavelengths (1 / 10 : ℚ) (some [1]) (some [21 / 20]) = some [21 / 20] := by
+  have hu : union1d ([1] : List ℚ) [21 / 20] = [1, 21 / 20] := by
+    apply union1d_eq_of
+    · simp only [StrictAsc]; norm_num
+    · intro x; simp only [List.mem_cons, List.not_mem_nil, or_false]
+  simp only [mergeWavelengths, hu]
+  decide +kernel
+
+example : ∃ y ∈ ([21 / 20] : List ℚ), 1 ≤ y ∧ y - 1 ≤ 1 / 10 := by
+  refine merge_covers_within_thr (1 / 10) (by norm_num) [1] [21 / 20] _ ex_merge2 ?_ 1 (Or.inl (by simp))
+  intro p hp q hq r hr hpq hqr
+  simp only [List.mem_cons, List.not_mem_nil, or_false] at hp hq hr
+  rcases hp with rfl | rfl <;> rcases hq with rfl | rfl <;> rcases hr with rfl | rfl <;>
+    (intro _; linarith)
+
+example : ∃ y ∈ ([4, 9 / 2, 5, 11 / 2, 6] : List ℚ), 5 ≤ y ∧ y - 5 ≤ 1 / 10 :=
+  merge_covers_of_wide_gaps (1 / 10) (by norm_num) _ _ _ ex_merge
+    (by simp only [StrictAsc]; norm_num) (by simp only [StrictAsc]; norm_num)
+    (by simp only [Gaps]; norm_num) (by simp only [Gaps]; norm_num) 5 (Or.inl (by simp))
+
+example : (9 / 2 : ℚ) ∈ leafPoints exTree :=
+  composite_no_invented_points (1 / 10) exTree _ exTree_sampleset _ (by simp)
+
+example : ∃ w, exTree.sampleset (1 / 10) = some w ∧ (11 / 2 : ℚ) ∈ w :=
+  composite_contains_components (1 / 10) exTree exTree_separated _ (by rw [exTree_leafPoints]; simp)
+
+/-- a redshifted composite: the component point `4` is seen at `8` -/
+example : ∃ w, (Tree.redshift 1 exTree).sampleset (1 / 10) = some w ∧
+    ∃ y ∈ w, (8 : ℚ) ≤ y ∧ y - 8 ≤ slack (1 / 10) (Tree.redshift 1 exTree) :=
+  composite_covers_components_partial (1 / 10) (by norm_num) _
+    (by simp only [ZPos, exTree]; norm_num) 8
+    (by simp only [leafPoints, exTree_leafPoints, List.mem_map]; exact ⟨4, by simp, by norm_num⟩)
+
+example : (Tree.bin .mul exTree (.leaf (.extinction exTable))).sampleset (1 / 10) = exTree.sampleset (1 / 10) :=
+  (composite_ignores_extinction _ _ _ _).1
+
+example : exTree.waveset (1 / 10) = .error .zeroWavelength ∨
+    ∃ w, exTree.waveset (1 / 10) = .ok (some w) ∧ StrictAsc w ∧ Gaps (1 / 10) w ∧ ∀ x ∈ w, 0 < x :=
+  waveset_composite (1 / 10) .add _ _ [4, 5, 6] [9 / 2, 5, 11 / 2] rfl rfl
+
+example : exTree.waveset (1 / 10) = .ok (some [4, 9 / 2, 5, 11 / 2, 6]) :=
+  (waveset_ok_iff _ _ _).mpr ⟨exTree_sampleset, by intro x hx; simp at hx; rcases hx with rfl | rfl | rfl | rfl | rfl <;> norm_num,
+    Or.inl (by simp only [StrictAsc]; norm_num)⟩
+
+/-- the refusal branch of `waveset_composite` / `waveset_outcomes` occurs: a blueshift cannot produce it
+(`1+z > 0`), a component reaching zero does -/
+example : (Tree.bin .add (.leaf (.box (1 : ℚ) 1 2 (some [0, 1, 2]))) (.leaf (.box 1 1 2 (some [0, 1, 2])))).waveset (1 / 10)
+    = .error .zeroWavelength := by
+  have hu : union1d ([0, 1, 2] : List ℚ) [0, 1, 2] = [0, 1, 2] :=
+    union1d_self _ (by simp only [StrictAsc]; norm_num)
+  have hs : (Tree.bin .add (.leaf (.box (1 : ℚ) 1 2 (some [0, 1, 2]))) (.leaf (.box 1 1 2 (some [0, 1, 2])))).sampleset (1 / 10)
+      = some [0, 1, 2] := by
+    simp only [Tree.sampleset, Leaf.sampleset, mergeWavelengths, hu]
+    decide +kernel
+  exact waveset_refuses_nonpositive _ _ _ hs 0 (by simp) (le_refl _)
+
+example : (Tree.scale exTree 7).waveset (1 / 10) = exTree.waveset (1 / 10) := waveset_scale _ _ _
+
+example : (Tree.redshift 1 exTree).waveset (1 / 10) =
+    (exTree.waveset (1 / 10)).map (fun o => o.map (fun w => w.map (· * (1 + 1)))) :=
+  waveset_redshift _ 1 (by norm_num) _
+
+example : ∃ b, (Spec.ofTree .source (.scale exTree 2)).model = .ok b ∧ b.waveset (1 / 10) = exTree.waveset (1 / 10) :=
+  waveset_scalar_op (1 / 10) .mul (Spec.ofTree .source exTree) _ 2 exTree
+    (by simp [specOp, typing, resultTree, Spec.ofTree, Spec.model, ZState.model, ZState.init, Operand.tag,
+          exTree, bind, Except.bind, pure, Except.pure])
+    (ofTree_model _ _)
+
+example := waveset_outcomes (1 / 10 : ℚ) exTree
+
+example : generateWavelengths exT 1 2 4 none false = [1, 5 / 4, 3 / 2, 7 / 4] := by decide +kernel
+example : (generateWavelengths exT 1 2 4 none false).length = 4 := (gen_linear_num exT 1 2 4 (by norm_num)).1
+
+example : generateWavelengths exT 0 1 4 (some (3 / 10)) false = [0, 3 / 10, 3 / 5, 9 / 10] := by decide +kernel
+example : ∀ x ∈ generateWavelengths exT 0 1 4 (some (3 / 10)) false, (0 : ℚ) ≤ x ∧ x < 1 :=
+  (gen_linear_delta exT 0 1 (3 / 10) 4 (by norm_num)).1
+
+example : arange (0 : ℚ) 1 (1 / 4) = [0, 1 / 4, 1 / 2, 3 / 4] := by decide +kernel
+example : (arange (0 : ℚ) 1 (1 / 4)).length = 3 + 1 ∧ (arange (0 : ℚ) 1 (1 / 4)).getLast? = some (1 - 1 / 4) :=
+  arange_exact_multiple 0 1 (1 / 4) 3 (by norm_num) (by norm_num)
+
+example : validateWavelengths (generateWavelengths exT 1 2 4 (some (1 / 4)) false) = .ok () :=
+  gen_linear_valid exT 1 2 4 _ (by norm_num) (by norm_num) (by intro d hd; cases hd; norm_num)
+
+private theorem logb_100 : Real.logb 10 100 = 2 := by
+  rw [show (100 : ℝ) = (10 : ℝ) ^ (2 : ℝ) by norm_num, Real.logb_rpow (by norm_num) (by norm_num)]
+
+/-- the default-style log grid between 1 and 100 with two points: `[10⁰, 10¹]` -/
+example : generateWavelengths Transc.real 1 100 2 none true = [1, 10] := by
+  simp [generateWavelengths, linspaceOpen, affineGrid, List.range_succ, logb_100]
+
+example : (generateWavelengths Transc.real 1 100 2 none true).length = 2 :=
+  (gen_log_num Transc.real Transc.real_lawful real_pow10_strictMono 1 100 2 (by norm_num) (by norm_num)).1
+
+example : ∀ x ∈ generateWavelengths Transc.real 1 100 2 (some (1 / 2)) true, (1 : ℝ) ≤ x ∧ x < 100 :=
+  (gen_log_delta Transc.real Transc.real_lawful real_pow10_strictMono 1 100 (1 / 2) 2 (by norm_num)
+    (by norm_num) (by norm_num)).1
+
+example : (1 : ℝ) ≤ Transc.real.pow10 1 ∧ Transc.real.pow10 1 < 100 :=
+  pow10_range Transc.real Transc.real_lawful real_pow10_strictMono 1 100 1 (by norm_num) (by norm_num)
+    (by simp [logb_100])
 
 end Synphot.C13
